@@ -176,4 +176,78 @@ Section ExtSem.
       destruct (ok_pneg (C09.Model.pmod p (C09.Model.psub p a (C09.Model.pmul p b c)) F)) as [H1 H2].
       split; [exact H1|]. rewrite H2, E. subst A B C. ring.
   Qed.
+
+  (* ---------------------------------------------------------------- inv / div through Poly1Dom::invmod (partial correctness:
+     whenever the model returns an answer it is the inverse / the quotient; the loop invariant is S0*A = F, S1*A = G modulo the
+     modulus, for any scalars r1) *)
+  Lemma ok_pdivc a c : okp (pdivc p a c) (zr' (C09.Model.inv p c) *' sem' a).
+  Proof.
+    split; [apply C09.ProofsAlg.canon_red; exact Hp|]. unfold pdivc, C09.Model.pscale. rewrite sem_red, sem_pscaleZ. reflexivity.
+  Qed.
+
+  Lemma invmod_loop_ok (A : R) : forall fuel Fp G S0 S1 s g,
+    canon Fp -> canon G -> canon S0 -> canon S1 ->
+    sem' S0 *' A = sem' Fp -> sem' S1 *' A = sem' G ->
+    invmod_loop p fuel Fp G S0 S1 = Some (s, g) ->
+    sem' s *' A = sem' g /\ canon s.
+  Proof.
+    induction fuel as [|f IH]; intros Fp G S0 S1 s g CF CG CS0 CS1 I0 I1 E.
+    - destruct G as [|z G]; cbn [invmod_loop] in E; [|discriminate]. inversion E; subst. split; assumption.
+    - destruct G as [|z G]; cbn [invmod_loop] in E.
+      + inversion E; subst. split; assumption.
+      + set (GG := z :: G) in *.
+        destruct (C09.ProofsDiv.pdivmod_spec p Hp Fp GG CF CG ltac:(subst GG; discriminate)) as [EQ [CQ [CR _]]].
+        set (Q := C09.Model.pdiv p Fp GG) in *. set (R1 := C09.Model.pmod p Fp GG) in *.
+        set (r1 := if C09.Model.lc R1 mod p =? 0 then 1 else C09.Model.lc R1) in *.
+        assert (SF : sem' Fp = sem' GG *' sem' Q +' sem' R1) by (rewrite (sem_eqp _ _ EQ), sem_paddZ, sem_pmulZ; reflexivity).
+        destruct (ok_pdivc R1 r1) as [C1 S1'].
+        destruct (ok_pdivc (C09.Model.psub p S0 (C09.Model.pmul p Q S1)) r1) as [C2 S2'].
+        apply (IH GG (pdivc p R1 r1) S1 (pdivc p (C09.Model.psub p S0 (C09.Model.pmul p Q S1)) r1) s g); try assumption.
+        rewrite S2', S1'. destruct (ok_inner_sub S0 Q S1) as [_ ->].
+        transitivity (zr' (C09.Model.inv p r1) *' (sem' S0 *' A -' sem' Q *' (sem' S1 *' A))); [ring|].
+        rewrite I0, I1, SF. ring.
+  Qed.
+
+  Lemma sem_const c : sem' (C09.Model.red p [c]) = zr' c.
+  Proof. rewrite sem_red. cbn [sem]. ring. Qed.
+
+  Definition ext_inv_spec : Prop :=
+    (forall a r, canon a -> e_inv p F a = Some r -> canon r /\ sem' r *' sem' a = rI) /\
+    (forall a b r, canon a -> canon b -> e_div p F a b = Some r -> (canon r /\ small r) /\ sem' r *' sem' b = sem' a).
+
+  Lemma e_inv_ok a r : canon a -> e_inv p F a = Some r -> canon r /\ sem' r *' sem' a = rI.
+  Proof.
+    intros Ca E. unfold e_inv, invmod_pair in E.
+    destruct (Z.leb_spec (C09.Model.deg a) 0) as [Hd|Hd].
+    - cbn [orb] in E. destruct (Z.eqb_spec (C09.Model.deg a) 0) as [H0|H0]; [|discriminate].
+      inversion E; subst r. split; [apply C09.ProofsAlg.canon_red; exact Hp|].
+      unfold C09.Model.deg in H0. destruct a as [|c [|d a]]; cbn [length] in H0; try lia.
+      cbn [C09.Model.lc last]. rewrite sem_const. cbn [sem].
+      destruct Ca as [Cr Cl]. inversion Cr as [|? ? Hc _]; subst. cbn [last] in Cl.
+      assert (Hm : c mod p <> 0) by (rewrite Z.mod_small by lia; exact Cl).
+      pose proof (C09.ProofsDiv.inv_spec p Hp c Hm) as HI.
+      transitivity (zr' ((c * C09.Model.inv p c) mod p)); [rewrite zrMod, zrM; ring|]. rewrite HI. apply (zr_1 R rO rI radd rmul rsub ropp Rth).
+    - destruct (Z.leb_spec (C09.Model.deg F) 0) as [HF|HF]; [lia|]. cbn [orb] in E.
+      destruct (invmod_loop p (S (length F)) (pdivc p a (C09.Model.lc a)) (pdivc p F (C09.Model.lc F))
+                            (C09.Model.red p [C09.Model.inv p (C09.Model.lc a)]) []) as [[s g]|] eqn:EL; [|discriminate].
+      destruct g as [|g0 g]; try discriminate. destruct g0 as [|[g0|g0|]|]; try discriminate. destruct g as [|g1 g]; try discriminate.
+      inversion E; subst r.
+      destruct (ok_pdivc a (C09.Model.lc a)) as [C1 S1]. destruct (ok_pdivc F (C09.Model.lc F)) as [C2 S2].
+      assert (I0 : sem' (C09.Model.red p [C09.Model.inv p (C09.Model.lc a)]) *' sem' a = sem' (pdivc p a (C09.Model.lc a))).
+      { rewrite sem_const, S1. reflexivity. }
+      assert (I1 : sem' [] *' sem' a = sem' (pdivc p F (C09.Model.lc F))).
+      { rewrite S2, root. cbn [sem]. ring. }
+      destruct (invmod_loop_ok (sem' a) _ _ _ _ _ s [1] C1 C2 (C09.ProofsAlg.canon_red p Hp _) (C09.ProofsAlg.canon_nil p) I0 I1 EL) as [HS HC].
+      split; [exact HC|]. rewrite HS. cbn [sem]. rewrite (zr_1 R rO rI radd rmul rsub ropp Rth). ring.
+  Qed.
+
+  Lemma ext_inv_ok : ext_inv_spec.
+  Proof.
+    split; [intros a r; apply e_inv_ok|].
+    intros a b r Ca Cb E. unfold e_div in E. destruct (e_inv p F b) as [ib|] eqn:EI; [|discriminate]. inversion E; subst r.
+    destruct (e_inv_ok b ib Cb EI) as [Ci Hi].
+    destruct (ok_modin _ _ (ok_pmul a ib)) as [[C S] Sm]. unfold e_mul. split; [split; assumption|].
+    rewrite S. transitivity (sem' a *' (sem' ib *' sem' b)); [ring|]. rewrite Hi. ring.
+  Qed.
+
 End ExtSem.
